@@ -2,6 +2,7 @@
 #include "sim.h"
 #include <dlfcn.h>
 #include <limits.h>
+#include <errno.h>
 #include <algorithm>
 #include <memory>
 
@@ -130,7 +131,7 @@ void world_end(World &W) {
     for (auto &s : W.slots) if (s.live) destroy_slot(W, s);
     thread_arena().release_all();
     set_env(W, false, "");
-    size_t now = own::live();
+    size_t now = own::live() - (size_t) W.orphan_blocks;
     W.trace.add("end.live", (i64) now - (i64) W.baseline_live);
     if (now != W.baseline_live) {
         W.viol("C16 C17 C13 C14", "leak-at-quiescence",
@@ -312,13 +313,21 @@ struct Delivered {
     bool sizes_sane = true;
 };
 
-static Delivered deliver(World &W, const Obj &o, const Slot &s, const Json &dl, const Json &fxall = Json()) {
+static Delivered deliver(World &W, const Obj &o, const Slot &s, const Json &dl, const Json &fxall = Json(), size_t slack = 0) {
     Delivered D;
     ref::InstView I = inst_view(W, s);
     int n = (int) o.dev.size();
+    std::map<int, size_t> first_plain; size_t nsame = 0;   // device -> first delivery of it without damage
     for (size_t i = 0; i < dl.size(); i++) {
         const Json &e = dl[i];
         int dev = n ? (int) ((u64) e["dev"].num() % (u64) n) : 0;
+        bool capped = dl.size() > 1000 && D.ptrs.size() - nsame >= 200 && first_plain.count(dev);   // enormous lists: at most 200 separately placed buffers (the arena is finite), the rest repeat the first plain copy
+        if (capped) W.probe("deliver.flood-capped");
+        if (capped || (e["same"].in(0) && !e.has("fx") && !fxall.size())) {
+            // fast path for repeats of the very same buffer (lists of 100k entries): no copy, nothing new to judge
+            auto it = first_plain.find(dev);
+            if (it != first_plain.end()) { D.bufs.emplace_back(); D.ptrs.push_back(D.ptrs[it->second]); D.devs.push_back(dev); nsame++; continue; }
+        }
         std::vector<u8> b = o.dev[dev];
         apply_fx(W, b, e["fx"], &o, dev);
         if (fxall.size()) apply_fx(W, b, fxall, &o, dev);   // the same edit on every delivered fragment (a consistently wrong writer)
@@ -349,12 +358,18 @@ static Delivered deliver(World &W, const Obj &o, const Slot &s, const Json &dl, 
         char *p = nullptr;
         if (e["same"].in(0) && !e.has("fx"))   // same pointer as an earlier, undamaged delivery of this device
             for (size_t q = 0; q < D.devs.size(); q++) if (D.devs[q] == dev && D.bufs[q] == b) { p = D.ptrs[q]; W.fault("DUP.same-pointer"); break; }
+        if (!p && slack) {   // the caller keeps fragments in roomier slots and passes the slot size as the fragment length
+            std::vector<u8> bp = b; for (size_t z = 0; z < slack; z++) bp.push_back((u8) (0xC3 ^ (z * 13)));
+            p = (char *) thread_arena().place(bp.data(), bp.size(), al == 16 ? Arena::RIGHT : (al & 15));
+        }
         if (!p) p = (char *) thread_arena().place(b.data(), b.size(), al == 16 ? Arena::RIGHT : (al & 15));
         if (((uintptr_t) p & 15) != 0) W.fault("MISALIGN");
+        if (!e.has("fx") && !fxall.size() && !first_plain.count(dev)) first_plain[dev] = D.ptrs.size();
         D.bufs.push_back(std::move(b));
         D.ptrs.push_back(p);
         D.devs.push_back(dev);
     }
+    if (nsame) { W.fault("DUP.same-pointer"); if (nsame > 1000) W.fault("DUP.flood-100k"); }
     // delivery-shape faults (counted as fired, not configured)
     {
         std::set<int> seen; bool dup = false, reord = false; int last = -1;
@@ -445,6 +460,22 @@ static void op_put(World &W, const Json &op) {
     u64 len = (u64) op["len"].num();
     std::vector<u8> data = make_data(len, op["pat"].in(0), (u64) op["dseed"].num());
     int al = op["al"].in(16);
+    if ((op["pat"].in(0) == 8 || op["pat"].in(0) == 9) && s.cfg.k >= 1) {
+        // payloads that look like fragments (a stored object may itself be a fragment): the header magic at the header's
+        // magic offset of every data block (8), or a whole valid header at the start of every data block (9)
+        int fs = liberasurecode_get_fragment_size(s.desc, (int) len);
+        const std::vector<u8> *hdr = nullptr;
+        for (auto &ob : W.objs) if (ob.valid && !ob.orig.empty() && ob.orig[0].size() >= ref::HDR) { hdr = &ob.orig[0]; break; }
+        if (fs > (int) ref::HDR) {
+            u64 bs = (u64) fs - ref::HDR;
+            for (int i = 0; i < s.cfg.k; i++) {
+                u64 base = (u64) i * bs;
+                if (op["pat"].in(0) == 9 && hdr && base + ref::HDR <= len) memcpy(&data[base], hdr->data(), ref::HDR);
+                else if (base + ref::OFF_MAGIC + 4 <= len) ref::st32(&data[base + ref::OFF_MAGIC], (i & 1) ? ref::bswap32(ref::MAGIC) : ref::MAGIC);
+            }
+            W.fault("DATA.looks-like-a-fragment");
+        }
+    }
     if (op["pat"].in(0) == 7 && s.cfg.k == 1 && s.cfg.ct == ref::CT_CRC32 && len >= 4 && !op.has("bfail")) {
         // data chosen so that the *metadata* checksum of data fragment 0 comes out as exactly 0 (a legal CRC value): a first
         // encode shows the header this instance writes; its CRC is affine in the stored payload checksum T, so solve T, then
@@ -572,21 +603,32 @@ static void op_get(World &W, const Json &op) {
     Obj &o = W.objs[(size_t) op["obj"].num() % World::NOBJ];
     if (!s.live || !o.valid) return;
     if (op.has("env")) { if (op["env"].isnull()) set_env(W, false, ""); else set_env(W, true, op["env"].str()); W.fault("ENV"); }
-    Delivered D = deliver(W, o, s, op["dl"], op["fxall"]);
+    size_t slack = (size_t) op["slack"].in(0);
+    if (slack) W.fault("SLOT_LARGER_THAN_FRAGMENT");
+    Delivered D = deliver(W, o, s, op["dl"], op["fxall"], slack);
     int num = (int) D.ptrs.size();
     int force = op["force"].in(0);
     if (!D.sizes_sane) { W.probe("get.skipped-header-lies-about-sizes"); thread_arena().release_all(); return; }
-    char *out = nullptr; u64 outlen = 0;
+    // the caller's output variables hold leftovers, not zeroes (every other operation; a zero-length object may legitimately
+    // leave the buffer pointer alone, so those keep the NULL)
+    bool prefill = (cur().op & 1) && o.data.size() > 0;
+    char *const junk = (char *) (uintptr_t) 0x5a5a5a5a5a58ULL;
+    char *out = prefill ? junk : nullptr; u64 outlen = prefill ? 0x1234567 : 0;
     size_t live0 = own::live();
     cur().api = "decode";
     arm_bfail(W, op);
     long inj0 = isal_injected_failures();
     char **frlist = (char **) thread_arena().place((const u8 *) D.ptrs.data(), D.ptrs.size() * sizeof(char *), Arena::RIGHT);   // the list itself is an input too
-    int rc = liberasurecode_decode(s.desc, frlist, num, o.flen, force, &out, &outlen);
+    int rc = liberasurecode_decode(s.desc, frlist, num, o.flen + slack, force, &out, &outlen);
     bool fired = disarm_bfail(W);
     if (isal_injected_failures() != inj0) { fired = true; W.fault("ISAL_INVERT_FAIL.fired"); }
     W.trace.add("get.rc", rc);
     bool same = s.cfg.same(o.cfg) && coded_backend(s.cfg.be);
+    if (rc == 0 && prefill && out == junk) {
+        W.viol("C01 C02 C13 C16 C19 C20", "decode/success-without-output", "decode returned 0 but left the caller's output pointer untouched");
+        out = nullptr;
+    }
+    if (rc != 0 && out == junk) out = nullptr;
     bool exact = rc == 0 && out && outlen == o.data.size() && !bytes_differ(out, o.data.data(), outlen);
     if (rc == 0 && !out && o.data.size() == 0 && outlen == 0) exact = true;  // zero-length object: a NULL buffer is acceptable
     if (rc == 0) { W.trace.add("get.len", (i64) outlen); if (out) W.trace.addbuf("get.out", out, outlen); }
@@ -641,13 +683,15 @@ static void op_repair(World &W, const Json &op) {
     if (!s.live || !o.valid) return;
     if (op.has("env")) { if (op["env"].isnull()) set_env(W, false, ""); else set_env(W, true, op["env"].str()); W.fault("ENV"); }
     else if (o.legacy != env_legacy(W) && !W.threaded) set_env(W, o.legacy, "1");  // hold the writer profile (C03 does not speak about changing it); never touch the environment while other threads run
-    Delivered D = deliver(W, o, s, op["dl"], op["fxall"]);
+    size_t slack = (size_t) op["slack"].in(0);
+    if (slack) W.fault("SLOT_LARGER_THAN_FRAGMENT");
+    Delivered D = deliver(W, o, s, op["dl"], op["fxall"], slack);
     int num = (int) D.ptrs.size();
     int dest = op["dest"].in();
     if (!D.sizes_sane) { W.probe("repair.skipped-header-lies-about-sizes"); thread_arena().release_all(); return; }
     int al = op["oal"].in(0);
     u8 *outb = nullptr;
-    if (op["inplace"].in(0)) {
+    if (op["inplace"].in(0) && !slack) {
         // a caller that refreshes a fragment it holds: the destination is among the supplied fragments and the output
         // buffer is that very buffer
         for (size_t q = 0; q < D.devs.size() && !outb; q++) if (D.devs[q] == dest && D.bufs[q].size() == o.flen) {
@@ -656,13 +700,13 @@ static void op_repair(World &W, const Json &op) {
             D.ptrs[q] = (char *) outb; W.fault("REPAIR.in-place");
         }
     }
-    if (!outb) { outb = thread_arena().place(nullptr, o.flen, al == 16 ? Arena::RIGHT : (al & 15), true); memset(outb, 0xEE, o.flen); }
+    if (!outb) { outb = thread_arena().place(nullptr, o.flen + slack, al == 16 ? Arena::RIGHT : (al & 15), true); memset(outb, 0xEE, o.flen + slack); }
     size_t live0 = own::live();
     cur().api = "reconstruct_fragment";
     arm_bfail(W, op);
     long inj0 = isal_injected_failures();
     char **frlist = (char **) thread_arena().place((const u8 *) D.ptrs.data(), D.ptrs.size() * sizeof(char *), Arena::RIGHT);
-    int rc = liberasurecode_reconstruct_fragment(s.desc, frlist, num, o.flen, dest, (char *) outb);
+    int rc = liberasurecode_reconstruct_fragment(s.desc, frlist, num, o.flen + slack, dest, (char *) outb);
     bool fired = disarm_bfail(W);
     if (isal_injected_failures() != inj0) { fired = true; W.fault("ISAL_INVERT_FAIL.fired"); }
     W.trace.add("repair.rc", rc);
@@ -978,6 +1022,8 @@ void exec_op(World &W, const Json &op, int index) {
     W.steps++;
     W.trace.adds("op", cur().kind);
     const std::string &k = cur().kind;
+    // errno is whatever the application's last failed call left there: never an input of the library
+    { static const int ev[] = {0, ENOMEM, EINTR, EAGAIN, EINVAL, ERANGE, ENOENT, 0, EBADF}; errno = ev[((unsigned) index * 7u + (unsigned) W.steps) % 9u]; }
     if (k == "CREATE") op_create(W, op);
     else if (k == "DESTROY") op_destroy(W, op);
     else if (k == "PUT") op_put(W, op);
